@@ -23,7 +23,7 @@ EXPLANATION = (
     "decrease_credit_after / decrease_credit_steps; definite counterexamples come from exact rational evaluation of "
     "the extracted function on a grid of admissible configurations. (D2) apply_attempt_based_credit: missing attempt "
     "-> ConfigError before anything else; attempts below 1 clamped to 1 before the schedule is called; credit == 1 "
-    "leaves the result untouched; exactly the entries with grade > 0 are multiplied by the credit with ok recomputed "
+    "leaves the result untouched and is tested on the same normalised value that scales the grades; exactly the entries with grade > 0 are multiplied by the credit with ok recomputed "
     "from the new grade, for list and single results, no early exit; the note is appended iff the message flag and "
     "some grade changed, with the literal format and the right key. (D3) __call__ applies it iff "
     "config['attempt_based_credit'], with kwargs.get('attempt'), after the key filter and before the debug append.")
@@ -98,6 +98,28 @@ def _expand_self_calls(idx, ci, paths, depth=3):
     return paths
 
 
+def _split_conditionals(paths, limit=64):
+    """`return a if c else b` is two pieces: split returning paths on conditional expressions in their value."""
+    from ._c12_matrix import rewrite
+    out = list(paths)
+    for _ in range(limit):
+        nxt, changed = [], False
+        for p in out:
+            ife = next((s_ for s_ in ai.subterms(p.value) if s_[0] == 'ifexp'), None) if p.kind == 'ret' else None
+            if ife is None:
+                nxt.append(p)
+                continue
+            changed = True
+            for cond, branch in ((ife[1], ife[2]), (ai.t_not(ife[1]), ife[3])):
+                q = ai.SPath(list(p.guards) + [(cond, None)], 'ret', rewrite(p.value, {ife: branch}), None, p.stmt, p.store, p.env,
+                             p.effects, p.closures)
+                nxt.append(q)
+        out = nxt
+        if not changed:
+            return out
+    raise Unsupported('too many conditional expressions in a schedule')
+
+
 class Schedule(object):
     def __init__(self, idx, ci):
         self.ci = ci
@@ -107,10 +129,11 @@ class Schedule(object):
         self.var = self.fi.params[1]
         self.facts = ai.schema_facts(idx, ci)
         self.facts.add(SymFact(self.var, Interval(1, INF), integer=True, samples=[Fraction(1)]))
-        self.paths = _expand_self_calls(idx, ci, ai.sym_exec(idx, self.fi))
+        self.paths = _split_conditionals(_expand_self_calls(idx, ci, ai.sym_exec(idx, self.fi)))
         self.pw = ai.Piecewise([p for p in self.paths if p.kind == 'ret'], self.var, self.facts)
         self.min_key = REVIEWED.get(ci.name)
         self.witness = {}
+        self.unsupported = None
         self._scan()
 
     def label(self, piece):
@@ -131,8 +154,12 @@ class Schedule(object):
                 a[self.var] = Fraction(n)
                 try:
                     kind, val = full.eval_concrete(a)
-                except (Unsupported, ZeroDivisionError, OverflowError) as e:
-                    self.witness.setdefault('total', (asg, 'attempt %d: the schedule cannot be evaluated (%s)' % (n, e)))
+                except Unsupported as e:
+                    self.unsupported = str(e)        # the checker's own limitation: no witness may be derived from it
+                    self.witness = {}
+                    return
+                except (ZeroDivisionError, OverflowError) as e:
+                    self.witness.setdefault('total', (asg, 'attempt %d: evaluating the schedule divides by zero / overflows (%s)' % (n, e)))
                     break
                 if kind != 'ret' or val is None:
                     self.witness.setdefault('total', (asg, 'attempt %d: the schedule %s instead of returning a number'
@@ -248,6 +275,9 @@ def _first(r, sch):
     one = Rat.const(1)
     construct = '%s.__call__ at attempt 1' % sch.ci.name
     where = sch.fi.loc
+    if sch.unsupported:
+        r.undecided('%s.__call__' % sch.ci.name, 'the extracted schedule cannot be evaluated by the checker: %s' % sch.unsupported, where)
+        return
     if 'total' in sch.witness:
         asg, msg = sch.witness['total']
         r.violation('%s.__call__' % sch.ci.name, 'with %s, %s: apply_attempt_based_credit cannot turn the result into a '
@@ -622,23 +652,74 @@ def d2_apply(ctx, idx):
 
     d2_scale(ctx, idx, fi, R, N)
     d2_note(ctx, idx, fi, R, N)
+    d2_same(ctx, idx, fi, R, N)
 
 
-def _credit_names(fi):
-    """Local names that hold the schedule's value (through float/round re-assignments)."""
+def _layers(t):
+    """(normalisation layers outermost first, innermost term) of a credit value: round(float(x), 4) -> (['round','float'], x)."""
+    out = []
+    while t[0] == 'call' and t[1] in ('round', 'float') and t[2]:
+        out.append(t[1])
+        t = t[2][0]
+    return out, t
+
+
+def d2_same(ctx, idx, fi, R, N):
+    r = ctx.rule('D2.SAME', 'the credit compared with 1 for the early exit is the same value that multiplies the grades (every '
+                 'float()/round() normalisation precedes the test)', floor=1)
+    with r:
+        mult = sorted(getattr(fi, '_c17_mult', set()))
+        if not mult:
+            raise AnalysisError('the local that multiplies the grades was not identified (D2.SCALE)')
+        try:
+            paths = ai.sym_exec(idx, fi, loops='opaque')
+        except Unsupported as e:
+            raise AnalysisError(str(e))
+        seen = set()
+        for p in paths:
+            if p.kind not in ('fall', 'ret'):
+                continue
+            tested = [(g[2] if _is_credit(g[2]) else g[3]) for g in p.conds if g[0] == 'cmp' and g[1] == '!=' and
+                      ((g[3] == ai.num(1) and _is_credit(g[2])) or (g[2] == ai.num(1) and _is_credit(g[3])))]
+            if not tested:
+                continue
+            T = tested[0]
+            for name in mult:
+                V = p.env.get(name)
+                if V is None or (ai.show(T), ai.show(V)) in seen:
+                    continue
+                seen.add((ai.show(T), ai.show(V)))
+                construct = 'apply_attempt_based_credit: credit tested vs credit applied (%s)' % name
+                where = lib.loc(fi, p.stmt or fi.node)
+                lt, it_ = _layers(T)
+                lv, iv = _layers(V)
+                if V == T:
+                    r.ok(construct, 'both are `%s`' % ai.show(T), where)
+                elif _is_credit(V) and it_ == iv and len(lv) > len(lt) and lv[len(lv) - len(lt):] == lt and 'round' in lv[:len(lv) - len(lt)]:
+                    r.violation(construct, 'the early exit tests `%s == 1` but the grades are multiplied by `%s`: the rounding happens after '
+                                'the test, so a schedule value in [0.99995, 1) is not caught by the exit, is then rounded to 1.0, every '
+                                'positive grade is "changed" (multiplied by 1.0) and the note "Maximum credit for attempt #n is 100%%." is '
+                                'shown although no grade was reduced' % (ai.show(T), ai.show(V)), where,
+                                expected='round(float(credit), 4) before `if credit == 1: return`', found='test on `%s`' % ai.show(T))
+                else:
+                    r.undecided(construct, 'tested value `%s` and applied value `%s` differ in a way that was not reviewed' % (ai.show(T), ai.show(V)), where)
+
+
+def _credit_names(fi, idx=None):
+    """Local names that hold the (float/round-normalised) value of the schedule call on some path."""
+    cached = getattr(fi, '_c17_credits', None)
+    if cached is not None:
+        return cached
     names = set()
-    changed = True
-    while changed:
-        changed = False
-        for n in walk_own(fi.node):
-            if isinstance(n, ast.Assign) and len(n.targets) == 1 and isinstance(n.targets[0], ast.Name):
-                v = n.value
-                hit = any(isinstance(c, ast.Call) and nf.config_key(c.func) == 'attempt_based_credit' for c in ast.walk(v)) or \
-                    (any(isinstance(x, ast.Name) and x.id in names for x in ast.walk(v))
-                     and isinstance(v, ast.Call) and nf.callee_name(v) in ('float', 'round'))
-                if hit and n.targets[0].id not in names:
-                    names.add(n.targets[0].id)
-                    changed = True
+    if idx is not None:
+        try:
+            for p in ai.sym_exec(idx, fi, loops='opaque'):
+                for k, v in p.env.items():
+                    if _is_credit(v):
+                        names.add(k)
+        except Unsupported:
+            pass
+    fi._c17_credits = names
     return names
 
 
@@ -670,7 +751,7 @@ def _truthy_update(name, v):
     return False
 
 
-def _entry_body(r, idx, fi, stmts, X, kind, credits, where):
+def _entry_body(r, idx, fi, stmts, X, kind, credits, where, env=None, returns_flag=False, owner=None):
     """Check the per-entry work (statements `stmts` acting on entry X): exactly the entries with grade > 0 are scaled.
     Returns the set of local names that record 'an entry changed'."""
     pX = ('param', X)
@@ -678,14 +759,23 @@ def _entry_body(r, idx, fi, stmts, X, kind, credits, where):
     okloc = ('index', pX, ('str', 'ok'))
     construct = 'apply_attempt_based_credit [%s result]' % kind
     try:
-        paths = ai.sym_exec(idx, fi, stmts=stmts)
+        paths = ai.sym_exec(idx, fi, stmts=stmts, env=env)
     except Unsupported as e:
         r.undecided(construct + ': body', str(e), where)
         return set()
+    owner = owner or fi
+    if not hasattr(owner, '_c17_mult'):
+        owner._c17_mult = set()
     flags = None
     seen_pos = seen_nonpos = False
     for p in paths:
-        if p.kind not in ('fall', 'continue'):
+        if returns_flag:
+            if p.kind != 'ret' or p.value[0] not in ('bool', 'num'):
+                r.undecided(construct + ': body', 'a path of the per-entry helper does not return a constant flag', where)
+                continue
+            p.env = dict(p.env)
+            p.env['<changed>'] = ('bool', bool(p.value[1]))
+        elif p.kind not in ('fall', 'continue'):
             r.undecided(construct + ': body', 'a path of the per-entry work %s' % p.kind, where)
             continue
         gconds = [c for g in p.conds for c in ai.t_conjuncts(g) if ai.mentions(c, G)]
@@ -727,6 +817,7 @@ def _entry_body(r, idx, fi, stmts, X, kind, credits, where):
             r.violation(construct + ': product', 'the new grade is never stored back into grade_decimal', where,
                         expected="%s['grade_decimal'] * credit" % X)
         elif prod_ok:
+            owner._c17_mult.add((stored[2] if stored[1] == G else stored[1])[1])
             r.ok(construct + ': product', 'grade_decimal := grade_decimal * credit', where)
         elif any(s[0] == 'param' and s[1] in credits for s in ai.subterms(stored)) and any(s == G for s in ai.subterms(stored)):
             r.violation(construct + ': product', 'the new grade is `%s`, not grade * credit' % ai.show(stored), where,
@@ -763,14 +854,41 @@ def _entry_body(r, idx, fi, stmts, X, kind, credits, where):
     return flags or set()
 
 
+def _iterable_kinds(r, tb, fi, iter_node, pR, in_list, anchor, where):
+    """Which results does a loop / comprehension over `iter_node` serve?  [] when it must not be trusted."""
+    in_list_t = ('cmp', 'in', ('str', 'input_list'), pR)
+    it = tb.build(lib.inline_locals(iter_node, fi.node), {})
+    lst = ('index', pR, ('str', 'input_list'))
+    single = ('list', (pR,))
+    if it == lst:
+        br, _ = _branch_of(anchor, fi, in_list)
+        if br == 'body':
+            r.ok('scaling loop: iterable', "result['input_list'] under 'input_list' in result", where)
+            return ['list']
+        if br == 'orelse':
+            r.violation('scaling loop: iterable', "the loop over result['input_list'] runs when 'input_list' is NOT in result", where)
+            return []
+        r.undecided('scaling loop: iterable', "not guarded by 'input_list' in result", where)
+        return ['list']
+    if it in (('ifexp', in_list_t, lst, single), ('ifexp', ai.t_not(in_list_t), single, lst)):
+        r.ok('scaling loop: iterable', "result['input_list'] if 'input_list' in result else [result]", where)
+        return ['list', 'single']
+    if it[0] == 'index' and it[1] == lst:
+        r.violation('scaling loop: iterable', 'the loop iterates over `%s`, a part of result[\'input_list\']: the other inputs keep '
+                    'their unscaled grade' % ai.show(it), where, expected="result['input_list']", found=ai.show(it))
+        return []
+    r.undecided('scaling loop: iterable', 'iterable `%s` not recognised' % ai.show(it), where)
+    return []
+
+
 def d2_scale(ctx, idx, fi, R, N):
     r = ctx.rule('D2.SCALE', 'exactly the entries with grade > 0 are multiplied by the credit and get ok recomputed '
-                 '(list and single results)', floor=7)
+                 '(list and single results)', floor=6)
     pR = ('param', R)
     tb = ai.TermBuilder(idx, fi)
     fi._c17_flags = set()
     with r:
-        credits = _credit_names(fi)
+        credits = _credit_names(fi, idx)
         if not credits:
             raise AnalysisError('no local holds the value of the schedule call')
         in_list_t = ('cmp', 'in', ('str', 'input_list'), pR)
@@ -790,29 +908,7 @@ def d2_scale(ctx, idx, fi, R, N):
                 continue
             X = loop.target.id
             n_sites += 1
-            it = tb.build(lib.inline_locals(loop.iter, fi.node), {})
-            lst = ('index', pR, ('str', 'input_list'))
-            single = ('list', (pR,))
-            if it == lst:
-                kinds = ['list']
-                br, _ = _branch_of(loop, fi, in_list)
-                if br == 'body':
-                    r.ok('scaling loop: iterable', "result['input_list'] under 'input_list' in result", where)
-                elif br == 'orelse':
-                    r.violation('scaling loop: iterable', "the loop over result['input_list'] runs when 'input_list' is NOT in result", where)
-                    kinds = []
-                else:
-                    r.undecided('scaling loop: iterable', "not guarded by 'input_list' in result", where)
-            elif it in (('ifexp', in_list_t, lst, single), ('ifexp', ai.t_not(in_list_t), single, lst)):
-                kinds = ['list', 'single']
-                r.ok('scaling loop: iterable', "result['input_list'] if 'input_list' in result else [result]", where)
-            elif it[0] == 'index' and it[1] == lst:
-                r.violation('scaling loop: iterable', 'the loop iterates over `%s`, a part of result[\'input_list\']: the other inputs keep '
-                            'their unscaled grade' % ai.show(it), where, expected="result['input_list']", found=ai.show(it))
-                kinds = []
-            else:
-                r.undecided('scaling loop: iterable', 'iterable `%s` not recognised' % ai.show(it), where)
-                kinds = []
+            kinds = _iterable_kinds(r, tb, fi, loop.iter, pR, in_list, loop, where)
             site_nodes |= {id(x) for b in loop.body for x in ast.walk(b)}
             exits = [x for x in lib.loop_has_early_exit(loop) if not isinstance(x, ast.Continue)]
             if exits:
@@ -823,6 +919,39 @@ def d2_scale(ctx, idx, fi, R, N):
             served |= set(kinds)
             site_nodes |= {id(x) for b in loop.body for x in ast.walk(b)}
             flags |= _entry_body(r, idx, fi, loop.body, X, '/'.join(kinds) or 'list', credits, where)
+        # --- comprehensions that apply a per-entry helper of the class: [self._helper(entry, credit) for entry in entries]
+        for comp in [n for n in walk_own(fi.node) if isinstance(n, (ast.ListComp, ast.GeneratorExp, ast.SetComp))]:
+            if len(comp.generators) != 1 or comp.generators[0].ifs or not isinstance(comp.generators[0].target, ast.Name):
+                continue
+            call = comp.elt
+            if not (isinstance(call, ast.Call) and isinstance(call.func, ast.Attribute) and isinstance(call.func.value, ast.Name)
+                    and call.func.value.id == fi.params[0] and not call.keywords and all(isinstance(a_, ast.Name) for a_ in call.args)):
+                continue
+            callee = idx.lookup(fi.cls, call.func.attr) if fi.cls is not None else None
+            if callee is None or not any(lib.subscript_key(x) == 'grade_decimal' for x in ast.walk(callee.node)):
+                continue
+            where = lib.loc(fi, comp)
+            X = comp.generators[0].target.id
+            params = callee.params[1:]
+            if len(params) != len(call.args) or X not in [a_.id for a_ in call.args]:
+                r.undecided('scaling comprehension', 'arguments of self.%s not recognised' % call.func.attr, where)
+                continue
+            n_sites += 1
+            kinds = _iterable_kinds(r, tb, fi, comp.generators[0].iter, pR, in_list, comp, where)
+            r.ok('scaling loop: exhaustive', 'a comprehension visits every entry', where)
+            served |= set(kinds)
+            env = {pn: ('param', a_.id) for pn, a_ in zip(params, call.args)}
+            marks = _entry_body(r, idx, callee, callee.node.body, X, '/'.join(kinds) or 'list', credits, where, env=env,
+                                returns_flag=True, owner=fi)
+            if '<changed>' in marks:
+                # the local that aggregates the helper's results: F = any(<this comprehension>)
+                want = unparse(lib.inline_locals(comp, fi.node))
+                for n in walk_own(fi.node):
+                    if isinstance(n, ast.Assign) and len(n.targets) == 1 and isinstance(n.targets[0], ast.Name) and isinstance(n.value, ast.Call) \
+                            and nf.callee_name(n.value) == 'any' and len(n.value.args) == 1 \
+                            and unparse(lib.inline_locals(n.value.args[0], fi.node)) == want:
+                        flags.add(n.targets[0].id)
+                        site_nodes.add(id(n))
         # --- the result itself (single input), outside any loop
         for site in [n for n in walk_own(fi.node) if isinstance(n, ast.If)]:
             if any(isinstance(a, (ast.For, ast.While)) for a in ancestors(site)):
@@ -905,7 +1034,7 @@ def d2_note(ctx, idx, fi, R, N):
                  floor=6)
     pR, pN = ('param', R), ('param', N)
     with r:
-        credits = _credit_names(fi)
+        credits = _credit_names(fi, idx)
         flags = sorted(getattr(fi, '_c17_flags', set()))
         if len(flags) != 1:
             raise AnalysisError('cannot identify the local that records a changed grade (candidates: %s)' % flags)
@@ -953,7 +1082,8 @@ def d2_note(ctx, idx, fi, R, N):
                     fvals = [ai.concrete(ft, {})]
                     fkey = None
                 except (Unsupported, ZeroDivisionError):
-                    raise AnalysisError('value `%s` of %s at the note is not understood' % (ai.show(ft), flag))
+                    fvals = [False, True]          # an aggregate such as any(...): either truth value is possible
+                    fkey = ft
             for m in (False, True):
                 for fv in fvals:
                     for lst in (False, True):
@@ -1164,6 +1294,9 @@ MUTANTS = [
     Mutant('clamp-threshold', BASE, "if attempt_number < 1:  # Just", "if attempt_number < 0:  # Just", 'D2'),
     Mutant('clamp-value', BASE, "            attempt_number = 1\n        self.log(\"Attempt", "            attempt_number = 0\n        self.log(\"Attempt", 'D2'),
     Mutant('full-credit-return-dropped', BASE, "        if credit == 1:\n            # Don't do any modifications\n            return\n", "", 'D2'),
+    Mutant('rounding-after-the-full-credit-test', BASE, "        credit = round(credit, 4)\n        if credit == 1:\n            # Don't do any modifications\n            return\n",
+           "        if credit == 1:\n            # Don't do any modifications\n            return\n        credit = round(credit, 4)\n", 'D2',
+           note='a schedule value in [0.99995, 1) skips the exit, is rounded to 1.0, and the 100% note is shown'),
     Mutant('scale-guard-nonstrict-list', BASE, "if results_dict['grade_decimal'] > 0:", "if results_dict['grade_decimal'] >= 0:", 'D2'),
     Mutant('scale-guard-nonstrict-single', BASE, "            if result['grade_decimal'] > 0:", "            if result['grade_decimal'] >= 0:", 'D2'),
     Mutant('ok-not-recomputed-list', BASE, "                    results_dict['ok'] = self.grade_decimal_to_ok(grade)\n", "", 'D2'),
